@@ -327,6 +327,42 @@ def _containers(run, ix):
         run.violation("R4", f.where, f"DataStore.__hash__ does not cover every stored member: {what}",
                       key=key_of("C02-R4", "DataStore"))
 
+    # memo-freedom: apart from the two classes that own an explicit dirty protocol (checked by
+    # R2/R3 here and by C09 for the forest) no __hash__ may keep state on the object: a memoised
+    # container hash cannot know that a member changed (the member's own flag is cleared by
+    # whoever reads the member's hash first)
+    MEMO_OWNERS = {"TrackedArray": "dirty flag raised by every override (R1-R3)",
+                   "EnforcedForest": "explicit _hash reset by every mutator (C09-R1)"}
+    n_hash = 0
+    for m in ix.modules.values():
+        for c in m.classes.values():
+            hf = c.methods.get("__hash__")
+            if hf is None or c.name in MEMO_OWNERS:
+                continue
+            n_hash += 1
+            selfname = hf.params[0] if hf.params else "self"
+            stores = []
+            for n in ast.walk(hf.node):
+                tgts = []
+                if isinstance(n, ast.Assign):
+                    tgts = n.targets
+                elif isinstance(n, (ast.AugAssign, ast.AnnAssign)):
+                    tgts = [n.target]
+                for t in tgts:
+                    if isinstance(t, ast.Attribute) and isinstance(t.value, ast.Name) and t.value.id == selfname:
+                        stores.append(t.attr)
+                if isinstance(n, ast.Call) and getattr(n.func, "id", "") == "setattr" and n.args and \
+                        isinstance(n.args[0], ast.Name) and n.args[0].id == selfname:
+                    stores.append(ast.unparse(n.args[1]))
+            ok = not stores
+            run.instance("R4", hf.where, f"{c.name}.__hash__ keeps no memo on the object (stores: {stores})", ok)
+            if not ok:
+                run.violation("R4", hf.where,
+                              f"{c.name}.__hash__ memoises its result on the object ({', '.join(stores)}): a later change of a member "
+                              f"whose own dirty flag was already consumed by another reader leaves the container hash stale",
+                              key=key_of("C02-R4", "memo", c.name))
+    run.floor("container __hash__ methods examined", n_hash, 10)
+
     # thin delegations: the hash of X is the hash of its DataStore
     for spec, expect in [
         ("trimesh.parent:Geometry.__hash__", "self._data.__hash__()"),
